@@ -71,6 +71,13 @@ package keeper
 //@   ensures err == nil && old(BridgeInfo) != None ==> req.BridgeInfo.BridgeId == old.BridgeId && req.BridgeInfo.BridgeAddr == old.BridgeAddr
 //@        && req.BridgeInfo.L1ChainId == old.L1ChainId && (old.L1ClientId == "" || req.BridgeInfo.L1ClientId == old.L1ClientId)      // C12: binding_never_repointed
 //@   ensures err == nil ==> BridgeInfo == Some(req.BridgeInfo)                                                                      // C12: stored
+//@   ensures Params != None && addrOK(1, req.Sender) && (forall j int :: 0 <= j && j < len(val(Params).BridgeExecutors) ==> addrOK(1, val(Params).BridgeExecutors[j]))
+//@        && (exists j int :: 0 <= j && j < len(val(Params).BridgeExecutors) && addrBytes(1, val(Params).BridgeExecutors[j]) == addrBytes(1, req.Sender))
+//@        && req.BridgeInfo.BridgeId != 0 && len(req.BridgeInfo.BridgeAddr) > 0 && len(req.BridgeInfo.BridgeConfig.Proposer) > 0 && len(req.BridgeInfo.BridgeConfig.Challenger) > 0
+//@        && (req.BridgeInfo.BridgeConfig.BatchInfo.ChainType == 1 || req.BridgeInfo.BridgeConfig.BatchInfo.ChainType == 2) && len(req.BridgeInfo.BridgeConfig.BatchInfo.Submitter) > 0
+//@        && req.BridgeInfo.BridgeConfig.FinalizationPeriod > 0 && req.BridgeInfo.BridgeConfig.SubmissionInterval != 0 && req.BridgeInfo.BridgeConfig.SubmissionStartHeight != 0
+//@        && (old(BridgeInfo) == None || (req.BridgeInfo.BridgeId == old.BridgeId && req.BridgeInfo.BridgeAddr == old.BridgeAddr && req.BridgeInfo.L1ChainId == old.L1ChainId
+//@              && (old.L1ClientId == "" || req.BridgeInfo.L1ClientId == old.L1ClientId))) ==> err == nil                              // C12: listed_executor_can_always_refresh_the_binding
 //@   ensures err == nil ==> Params != None && addrOK(1, req.Sender) && (exists j int :: 0 <= j && j < len(val(Params).BridgeExecutors)
 //@        && addrOK(1, val(Params).BridgeExecutors[j]) && addrBytes(1, val(Params).BridgeExecutors[j]) == addrBytes(1, req.Sender))   // C12: executor_only
 //@   emits err == nil ==> ev("set_bridge_info", "bridge_id", fmtU64(req.BridgeInfo.BridgeId), "bridge_addr", req.BridgeInfo.BridgeAddr,
@@ -174,6 +181,7 @@ package keeper
 //@        && val(Validators[va]).ConsPower == 0 && val(Validators[va]).ConsensusPubkey == val(old(Validators)[va]).ConsensusPubkey
 //@        && val(Validators[va]).OperatorAddress == val(old(Validators)[va]).OperatorAddress                                    // C13: only_power_set_to_zero
 //@   requires forall k bytes :: Validators[k] != None ==> addrOK(2, val(Validators[k]).OperatorAddress) && addrBytes(2, val(Validators[k]).OperatorAddress) == k   // INV_VAL: records are stored under their operator address
+//@   ensures req.Authority == ms.authority && addrOK(1, req.Authority) && addrOK(2, req.ValidatorAddress) && old(Validators)[va] != None ==> err == nil   // C12: authority_can_always_remove_a_stored_validator
 //@   assigns Validators[va], events
 
 //@ func (Keeper) SetParams
@@ -183,6 +191,8 @@ package keeper
 //@ func (MsgServer) UpdateParams
 //@   ensures err == nil ==> req.Authority == ms.authority                                                                     // C12: authority_only
 //@   ensures err == nil ==> Params != None && card(Validators) <= val(Params).MaxValidators                                    // C13: max_validators_not_below_current
+//@   ensures err == nil ==> val(Params).BridgeExecutors == val(req.Params).BridgeExecutors && val(Params).Admin == val(req.Params).Admin && val(Params).MaxValidators == val(req.Params).MaxValidators
+//@        && val(Params).HookMaxGas == val(req.Params).HookMaxGas && val(Params).FeeWhitelist == val(req.Params).FeeWhitelist       // C12: requested_roles_take_effect_at_once
 //@   assigns Params, *req
 
 //@ func (MsgServer) SpendFeePool
